@@ -73,7 +73,7 @@ def main():
     muts = json.load(open(VERIF + '/selftest/mutations.json'))
     if filt:
         muts = [m for m in muts if any(f in m['name'] for f in filt)]
-    subprocess.run(['/verif/run.sh', 'C99', 'quick'], capture_output=True)  # make sure bin/verif is built
+    subprocess.run(['/verif/run.sh', 'C20', 'quick'], capture_output=True)  # make sure bin/verif is built
     results = []
     with concurrent.futures.ThreadPoolExecutor(max_workers=j) as ex:
         for r in ex.map(lambda m: one(m, tests), muts):
